@@ -60,9 +60,9 @@ from ..oracles import c19_gas as G
 PROP = "C19"
 DBFILE = os.path.join(build.REPO, "database", "phreeqc.dat")
 
-GASES = ["CO2(g)", "CH4(g)", "N2(g)", "O2(g)", "H2S(g)", "H2O(g)", "NH3(g)"]
+GASES = ["CO2(g)", "CH4(g)", "N2(g)", "O2(g)", "H2S(g)", "H2O(g)", "NH3(g)", "H2(g)"]      # H2: the one gas with a negative acentric factor
 # element / valence state whose total is fixed by a phase boundary when the solution is pre-saturated with the gas
-BOUNDARY = {"CO2(g)": "C(4)", "CH4(g)": "C(-4)", "N2(g)": "N(0)", "O2(g)": "O(0)", "H2S(g)": "S(-2)", "NH3(g)": "N(-3)"}
+BOUNDARY = {"CO2(g)": "C(4)", "CH4(g)": "C(-4)", "N2(g)": "N(0)", "O2(g)": "O(0)", "H2S(g)": "S(-2)", "NH3(g)": "N(-3)", "H2(g)": "H(0)"}
 # pre-saturation of the solution with NH3 is capped at 0.1 atm (6 mol/kgw): the aqueous model of phreeqc.dat has no
 # solution for ammonia at >= 1 atm (> 58 mol/kgw), the *initial solution* then fails before any gas calculation
 SAT_CAP = {"NH3(g)": 0.1}
@@ -84,10 +84,10 @@ KIJ_TABLE = [("H2O(g)", "CO2(g)", 0.25), ("CH4(g)", "CO2(g)", 0.1), ("O2(g)", "N
 REDEF_SETS = {
     "alt": {"CO2(g)": (304.1282, 72.808, 0.22394), "CH4(g)": (190.564, 45.3906, 0.01142), "N2(g)": (126.192, 33.5139, 0.0372),
             "O2(g)": (154.581, 49.7705, 0.0222), "H2S(g)": (373.1, 88.823, 0.1005), "H2O(g)": (647.096, 217.755, 0.3443),
-            "NH3(g)": (405.4, 111.848, 0.25601)},
+            "NH3(g)": (405.4, 111.848, 0.25601), "H2(g)": (33.145, 12.797, -0.219)},
     "fit": {"CO2(g)": (310.0, 76.0, 0.26), "CH4(g)": (194.4, 47.2, 0.043), "N2(g)": (128.7, 34.8, 0.074),
             "O2(g)": (157.7, 51.8, 0.056), "H2S(g)": (380.7, 91.7, 0.135), "H2O(g)": (660.2, 226.3, 0.379),
-            "NH3(g)": (413.7, 115.8, 0.285)},
+            "NH3(g)": (413.7, 115.8, 0.285), "H2(g)": (33.9, 13.3, -0.19)},
     "ideal": None,       # PHASES entry without -T_c / -P_c / -Omega: the gas becomes an ideal gas
     "crit": "db",        # (database variant "idealk" only) PHASES entry that GIVES the gas the constants of phreeqc.dat
 }
